@@ -250,7 +250,7 @@ func checkC32(c *Ctx, r *Report) {
 			okSrv := true
 			why := ""
 			n := 0
-			for _, site := range appendSitesT(uc, "types.CompletedPart") {
+			for _, site := range elemSitesT(uc, "types.CompletedPart") {
 				n++
 				if site.Alloc == nil {
 					okSrv, why = false, "non-literal part"
